@@ -9,13 +9,35 @@ def nontrivial(req, obs):
 
 def finding_key(req, obs, detail):
     import re
+    d = detail or ""
+    # a reference to an earlier enumerator whose initialiser had an enum or const-qualified type
+    if req.startswith("C13.enum\t") and re.match(
+            r"FAIL:panic typer/src/typer/expressions\.rs:\d+: \[(int|uint), Rvalue\] != \[[^\]]+, Rvalue\]: Literal\((Int32|UInt32)\(", d):
+        return K_ENUMREF
     m = re.match(r"FAIL:panic ([^:]+):\d+: (.*)$", detail or "")
     if m:
         return "panic %s: %s" % (m.group(1), re.sub(r"\d+", "N", m.group(2)))
     # one call site, one finding: Constant::to_uint64 lets negative literals through as sizes
     if re.match(r"FAIL:(array|numthreads) recorded (len|threads):\d+ for an expression whose value is L-\d+ ", detail or ""):
         return "size from a negative literal accepted (Constant::to_uint64, ir/src/ir_types.rs)"
+    d = detail or ""
+    # template value arguments are bound with the type of the argument expression, not converted to the declared
+    # parameter type (the oracle tags exactly the observations that the unconverted argument explains)
+    if d.startswith("FAIL:[template argument not converted to the parameter type"):
+        return K_TEMPLATE
+    # Constant::to_f32 has no arm for FloatLiteral and refuses negative Int32 values
+    if re.match(r"FAIL:(minlod|maxlod) recorded reject:\S* ?state requires a float.* whose value is (fl[0-9a-f]{16}|i-\d+) ", d):
+        return K_TOF32
+    # RayQuery<flags>: get_uint truncates an out-of-range literal with `as u32`
+    if re.match(r"FAIL:rayquery recorded flags:\d+ for an expression whose value is L-?\d+ \(expected a rejection", d):
+        return K_RAYQUERY
     return req.split("\tsrc:")[0]
+
+
+K_TEMPLATE = "template value argument is not converted to the declared parameter type (typer/src/typer/types.rs, scopes.rs)"
+K_TOF32 = "float property rejects a float literal or a negative int (Constant::to_f32, ir/src/ir_types.rs)"
+K_RAYQUERY = "RayQuery flags literal outside 32 bits is truncated (get_uint, typer/src/typer/types.rs)"
+K_ENUMREF = "panic typer/src/typer/expressions.rs: type self-check on a reference to an earlier enumerator (typer/src/typer/enums.rs records the initialiser's static type)"
 
 
 def _subtrees(s):
@@ -72,11 +94,16 @@ def search(ctx):
 
 SPEC = {
     "id": "C13",
-    "gens": ["EvalTable", "EvalSites"],
+    "gens": ["EvalTable", "EvalSites", "PosTable"],
     "lean_modules": ["RsslVerif.Thm.C13"],
     "theorems": [T + n for n in [
         "consteval_no_panic", "tables_panic_free", "consteval_agrees", "div_mod_zero_not_constant",
-        "div_mod_zero_not_constant_expr", "literal_exact", "literal_neg_exact", "positions_use_eval"]],
+        "div_mod_zero_not_constant_expr", "literal_exact", "literal_neg_exact", "positions_use_eval",
+        "float_round_nearest_even", "int_to_float_nearest_even", "float_to_float_nearest_even", "float_widen_exact",
+        "float_to_int_trunc_saturate", "float_narrowing_is_c10_narrow32", "position_rules_as_reviewed", "position_count_agrees", "position_count_complete",
+        "position_count_rejections", "case_label_value", "const_initialiser_value", "template_argument_value",
+        "template_argument_not_converted", "lod_property_value_partial", "lod_property_refuses_valid_values",
+        "enum_values_c_semantics", "enum_rejected_only_out_of_range", "enum_overflow_only_at_type_max", "enum_no_panic"]],
     "harness": "c13",
     "nontrivial": nontrivial,
     "finding_key": finding_key,
@@ -88,38 +115,67 @@ SPEC = {
                   "operand values, (a) never to panic when operand kinds are admissible, (b) to return only values that an independent "
                   "reference semantics (exact integers for literals, BitVec-32 two's complement for int/uint, shift counts masked to "
                   "5 bits, C comparisons, HLSL conversions) defines, with results staying in range, (c) to report division/modulus by "
-                  "zero as not constant, (d) to compute literal arithmetic exactly or refuse. The model is compared with the real "
-                  "evaluator on boundary-value trees (direct IR and IR produced by the real type checker), an independent Rust reference "
-                  "evaluator judges every real result, and generated expressions are placed in every constant-demanding position.",
+                  "zero as not constant, (d) to compute literal arithmetic exactly or refuse. The float conversions both sides use are "
+                  "proved to be the IEEE-754 / Rust `as` conversions: round-to-nearest-ties-to-even for int->float and double->float "
+                  "(equal to property C10's reference rounding, which satisfies IsNearestEven), float->double exact, float->int "
+                  "truncate-and-saturate with NaN->0. The positions are modelled too: what every constant-demanding site does with the "
+                  "evaluated constant (Constant::to_uint64 / to_f32 arms, 32/64/8-bit guards, zero refusal, enum unwrapping, kinds a "
+                  "template argument may have, const-only folding) is re-extracted from the source and proved sound and complete against "
+                  "the integer value of the specified result, for every kind of constant (untyped literal, int, uint, bool, enum); "
+                  "enum definitions (explicit values, implicit successors, references to earlier enumerators, overflow, deduction of the "
+                  "underlying type) are proved to have C semantics for enumerator lists of any length and never to panic. Two statements "
+                  "that are false on the pinned source are proved in the negative with witnesses replayed on the real compiler (template "
+                  "arguments are not converted to the parameter type; float properties refuse float literals and negative ints). "
+                  "The models are compared with the real code on boundary-value trees (direct IR and IR from the real type checker), on "
+                  "78 position programs per expression and on whole enum definitions; an independent Rust reference evaluator judges "
+                  "every real result, including the number printed in the emitted HLSL.",
     "rule": "requests: C13.eval = IR expression tree (module lookups inlined) run through the real evaluate_constexpr — "
             "(1) depth-1 trees: every integer/comparison operator on all pairs of boundary operands per kind, every unary operator and "
             "every cast target on every boundary constant of every kind, float comparisons on boundary pairs; (2) kind-consistent random "
             "trees to depth 5; (3) arbitrary (ill-typed, wrong arity) trees to depth 4; (4) trees produced by the real type checker from "
-            "generated source expressions to depth 5; C13.hyp = the theorems' hypotheses evaluated by the model on every type-checker tree; "
-            "C13.pos = a generated source expression placed as array size / enum value / next enumerator / case label / template value "
-            "argument / global and local const initialiser / numthreads, unroll and bind_group arguments / pipeline property / "
-            "assert_eval operand, judged against the reference value; "
+            "generated source expressions to depth 5; C13.hyp / C13.enumhyp = the theorems' hypotheses evaluated by the model on every "
+            "type-checker tree / enum definition; C13.pos = a source expression (every boundary atom of every type, and random trees to "
+            "depth 4; constants, namespace-scoped names, sizeof, non-constant forms) placed in 78 position programs: array sizes of globals, "
+            "locals, struct members, parameters, typedefs, cbuffer members, groupshared, both dimensions of 2-D arrays, multiple declarators, "
+            "size from an initialiser list; enum values (explicit, next, after an implicit 0, in a namespace); case labels (int, uint, enum "
+            "switch, nested, twice); template value arguments (function and struct templates, uint/int/bool parameters, defaults, mixed "
+            "with type parameters, two instantiations, used in the body as value and as array size, vector/matrix dimensions, RayQuery "
+            "flags); const initialisers (every scalar type, enum, namespace, typedef'd const, braces, multiple declarators, static local, "
+            "for-init, nested blocks) and their use by later constants; non-const declarations (never constant); numthreads x/y/z, unroll, "
+            "bind_group, vk::binding, DefaultBindGroup, WriteMask, MaxAnisotropy, MinLOD/MaxLOD; assert_eval on either side — the IR "
+            "field and, where the value is printed, the emitted HLSL are judged against the reference value; C13.enum = whole enum "
+            "definitions (1-6 enumerators, implicit/explicit/references to earlier and later enumerators) judged against C semantics; "
             "non-trivial = contains an operator or cast",
     "trusted_base": [
         "Lean 4.33 kernel; axioms propext / Classical.choice / Quot.sound only (audited by #print axioms)",
         "tools/gens/c13.py (Gen.EvalTable: per-arm rule of evaluate_operator, cast rules of evaluate_cast, enum re-wrap list, "
-        "operand-loop asserts, ScalarType::get_size; Gen.EvalSites: every call of evaluate_constexpr in the workspace) — re-run on /repo's working tree every time; unknown arm shapes are extraction errors",
-        "hand-written Model/ConstEval.lean (control flow of the three functions; Rust integer semantics of plain/wrapping/checked "
-        "operations and `as` casts) — tied to the code by the correspondence run",
-        "Model/ConstEvalFloat.lean: IEEE-754 binary32/64 decode, compare, round-to-nearest-even, saturating float->int — the meaning of "
-        "the Rust float primitives, given (shared by model and specification), exercised by the correspondence run only",
+        "operand-loop asserts, ScalarType::get_size; Gen.EvalSites: every call of evaluate_constexpr in the workspace; Gen.PosTable: "
+        "arms of Constant::to_uint64 / to_f32, the conversion and guards of parse_declarator, add_stage, extract_uint32, "
+        "parse_expr_as_u32, parse_statement_attribute, WriteMask, case labels, const-only folding of initialisers, kinds accepted by "
+        "parse_and_evaluate_constant_expression, first/successor/overflow arms of parse_rootdefinition_enum, range kinds, candidate "
+        "types and conversions of end_enum) — re-run on /repo's working tree every time; unknown shapes are extraction errors",
+        "hand-written Model/ConstEval.lean and Model/ConstPos.lean (control flow of the modelled functions; Rust integer semantics of "
+        "plain/wrapping/checked operations and `as` casts) — tied to the code by the correspondence run",
+        "Model/ConstEvalFloat.lean `decode` (meaning of an IEEE-754 bit pattern), `cmp`, `neg`, `neZero`: given; `round`, `ofInt`, "
+        "`convert`, `toIntSat` are proved against Spec/Dec2Bin.lean (IsNearestEven) and by direct characterisation",
         "Spec/HlslConst.lean: our reading of HLSL (float->int: truncate, saturate, NaN->0 as D3D ftoi/ftou; half constants kept at "
-        "float precision; an operator on enums yields the enum; mixed-kind equality is false)",
-        "harness reference evaluator (harness/src/c13.rs `reference`): written from the property text, independent of the Lean model",
+        "float precision; an operator on enums yields the enum; mixed-kind equality is false); EnumSeq / AllIn in Lemmas/ConstPosEnum "
+        "(C semantics of an enumerator list, int-before-uint deduction)",
+        "harness reference evaluator and position rules (harness/src/c13.rs `reference`, c13_pos.rs `judge_site` / `judge_enum`): "
+        "written from the property text, independent of the Lean model; static types of enumerator initialisers are obtained from the "
+        "real type checker through assert_type<T>",
     ],
     "assumptions": [
         "theorem hypotheses: constants fit their Rust types, enum constants are not nested, operator nodes have the operand count "
         "their arm reads (wfE); for consteval_no_panic additionally enum operands are not mixed with other kinds and ~ has an integer "
-        "operand (kindsOk) — both are evaluated by the model on every tree the real type checker produced (C13.hyp)",
-        "overflow panics are those of a build with overflow-checks (the harness profile); release builds wrap instead",
+        "operand (kindsOk); for enum_no_panic additionally an initialiser of integer/enum type evaluates, if at all, to an "
+        "integer-like constant (type soundness of the front end) — all are evaluated by the model on every tree / definition the real "
+        "type checker produced (C13.hyp, C13.enumhyp)",
+        "overflow panics are those of a build with overflow-checks (the harness profile); release builds wrap instead; the type "
+        "self-check of parse_expr_internal (debug_assertions) is outside the model: definitions that trip it are answered `unsupported`",
         "NaN payload propagation of f64->f32 conversion follows x86 cvtsd2ss (NaN constants cannot be written in source)",
-        "the positions (array size, enum value, case label, template argument, const initialiser, attribute argument) are not "
-        "modelled in Lean: positions_use_eval ties the inventory of evaluate_constexpr call sites to a reviewed list; what each "
-        "site does with the result is checked by the correspondence run against the reference evaluator only",
+        "positions whose value flows through further declarations (flow_*), the conversion of `return N` in template bodies, "
+        "RayQuery flags and assert_eval acceptance are judged by the reference evaluator only (no Lean model); name clashes of "
+        "enumerators and overload resolution between templates are other properties' subjects",
     ],
 }
